@@ -116,7 +116,7 @@ def kernel_unit(kind, dim, op, opts):
             want = spec[c]
             want = to_z3(Fraction(want)) if not isinstance(want, z3.ExprRef) else want
             U.prove(f"out{list(c)}==stencil", prem, to_z3(got) == want,
-                    info={"kind": "K", "replay_payload": replay, "comp": list(c)})
+                    info={"kind": "K", "replay_payload": replay, "comp": list(c), "replay": _small_instance(prem, to_z3(got) == want, g, arr)})
         # ---- the precondition is satisfiable and a perturbed specification is refutable
         U.cover("pre.cover", prem)
         c0 = comps[0]
@@ -129,6 +129,42 @@ def kernel_unit(kind, dim, op, opts):
         U.assume_note("`arr` and `out` do not overlap in memory (out is allocated by the caller wrappers, C03)")
 
     return unit
+
+
+def _small_instance(prem, claim, g, arr):
+    """replay recipe built next to the obligation: when it is refuted, re-solve with at most 4 cells per axis and cell
+    centres of a real grid (lo + (k + 1/2) h), and hand grid and padded array of that counter-model to the native
+    driver, which runs the real operator on exactly this input"""
+    def build(_model):
+        from fractions import Fraction as Q
+
+        s = z3.Solver()
+        s.set("timeout", 4000)
+        for p_ in prem:
+            s.add(p_)
+        s.add(z3.Not(claim))
+        for a in range(g.num_axes):
+            s.add(g.N[a] <= 4, g.h[a] <= 3, g.h[a] >= Q(1, 4), g.lo[a] >= -3, g.lo[a] <= 3)
+            for k in range(-1, 6):
+                s.add(g.coord(a, k) == g.lo[a] + (Q(2 * k + 1, 2)) * g.h[a])
+        if s.check() != z3.sat:
+            return None
+        m = s.model()
+
+        def num(t):
+            v = m.eval(to_z3(t), model_completion=True)
+            return float(v.numerator_as_long()) / float(v.denominator_as_long()) if z3.is_rational_value(v) else None
+
+        shape = [m.eval(n, model_completion=True).as_long() for n in g.N]
+        full = [concrete_int(d, g, shape) for d in arr.shape]
+        vals = {}
+        for idx in itertools.product(*[range(d) for d in full]):
+            vals[idx] = num(arr.read(idx))
+            if vals[idx] is None or abs(vals[idx]) > 1e6:
+                return None
+        return {"shape": shape, "h": [num(x) for x in g.h], "lo": [num(x) for x in g.lo], "arr": _nested(vals, full)}
+
+    return build
 
 
 def derivative_unit(num_axes, axis, method, second):
@@ -394,6 +430,11 @@ def replay(o):
     cfg = (o.get("info") or {}).get("replay_payload")
     if not cfg or cfg.get("kind") == "derivative":
         return {"reproduced": None, "note": "no native replay recipe for this obligation"}
+    inst = o.get("replay")
+    if isinstance(inst, dict) and "arr" in inst:
+        res = native("ops.py", {"configs": [cfg], "instance": inst})
+        if res.get("ok") and res["failures"]:
+            return {"reproduced": True, "native": res["failures"][0], "input": "grid and padded array of the solver's counter-model (re-solved with <= 4 cells per axis)"}
     res = native("ops.py", {"configs": [cfg], "grids_per_config": 6, "seed": 1})
     if not res.get("ok"):
         return {"reproduced": None, "error": res}
